@@ -79,17 +79,8 @@ def run(ctx):
     quick = ctx.tier == "quick"
     ctx.build_go()
     ctx.build_emerge()
-    ctx.extract(["regex"])
-    try:
-        ctx.prove("Emerge.Props.C14")
-        if not quick:
-            ctx.leanchecker("Emerge.Props.C14")
-    except Broken as b:
-        ctx.add_broken(b.what, b.detail)
-        ok, out = ctx.lake(["model"])
-        if not ok:
-            ctx.add_broken("model driver no longer builds", out[-2000:])
-            return ctx.finish(LEVEL, {"evaluations": 0, "distinct_nontrivial": 0, "samples": [], "explanation": "aborted"}, [])
+    if not ctx.prepare(["regex"], "Emerge.Props.C14", quick):
+        return ctx.finish(LEVEL, {"evaluations": 0, "distinct_nontrivial": 0, "samples": [], "explanation": "aborted"}, [])
     rng = ctx.rng
     specs = byte_cases(rng, 3000 if quick else 60000)
     pats = pattern_cases(rng, 2500 if quick else 50000)
